@@ -679,10 +679,11 @@ Inductive action :=
 | ARcondSolveRefine                 (* dgscon, dgstrs, dgsrfs on L, U *)
 | AQuerySpace.                      (* superlu_dQuerySpace(nprocs, L, U, ...): reads L->Store, U->Store *)
 
+(* the statistics are read off L and U only when they exist: info <= n + 1 (a memory failure returns more than n + 1) *)
 Definition gssvx_tail (lwork n info : Z) : list action :=
   if lwork =? -1 then [AReturnQuery (info - n)]
   else (if 0 <? info then (if info <=? n then [APivotGrowth info] else [])
-        else [APivotGrowth n; ARcondSolveRefine]) ++ [AQuerySpace].
+        else [APivotGrowth n; ARcondSolveRefine]) ++ (if info <=? n + 1 then [AQuerySpace] else []).
 
 Definition reads_lu (a : action) : bool :=
   match a with AReturnQuery _ => false | _ => true end.
